@@ -65,7 +65,7 @@ Shapes == {"nil", "true", "int0", "int5", "intneg", "float", "strempty", "str", 
            "cyclist", "cycmap", "cycptr", "cycmutual", "strlong", "listlong",
            \* interface slices with methods, pointers that lead to themselves, defined pointer types, NaN keys, keys of different
            \* defined types with one value, shared sub-values sixty levels deep
-           "errslice", "stringerslice", "ptrcycle", "ptrself", "stringermap", "hiddennanmap", "structslice", "arrslice", "structmapv", "structkeymap", "intstrmap", "floatboolmap", "intnilmap", "floaterrmap", "intifacemap", "ptrptrmap", "namedptr", "nanmap", "nanifacemap", "namedkeys", "dag60", "dagmap"} \cup CharShapes \cup StrShapes \cup IntEdgeShapes
+           "errslice", "stringerslice", "ptrcycle", "ptrself", "stringermap", "hiddennanmap", "nilifaceptr", "nilerrptr", "structslice", "arrslice", "structmapv", "structkeymap", "intstrmap", "floatboolmap", "intnilmap", "floaterrmap", "intifacemap", "ptrptrmap", "namedptr", "nanmap", "nanifacemap", "namedkeys", "dag60", "dagmap"} \cup CharShapes \cup StrShapes \cup IntEdgeShapes
 V == Var("v")
 F0(f) == Filt(f, V, <<>>)
 Skeletons ==
@@ -106,6 +106,10 @@ Skeletons ==
     idxin |-> <<PrintS(Cond(Bin("in", V, Var("mi")), LI(1), LI(2))), PrintS(Cond(Bin("in", V, Var("mk")), LI(1), LI(2)))>>,
     mergeto |-> <<PrintS(Filt("merge", Var("mis"), <<V>>)), PrintS(Filt("merge", Var("mfb"), <<V>>))>>, mergeto2 |-> <<PrintS(Filt("merge", Var("mi"), <<V>>)), PrintS(Filt("merge", V, <<Var("mis")>>))>>,
     mergefnto |-> <<PrintS(Call("merge", <<Var("mis"), V>>)), PrintS(Call("merge", <<V, Var("mfb")>>))>>,
+    attrString |-> <<PrintS(Cond(Test(Attr(V, "String"), "defined", <<>>, FALSE), LI(1), LI(2))), PrintS(Cond(Test(Attr(V, "Error"), "defined", <<>>, FALSE), LI(1), LI(2))), PrintS(Attr(V, "String")), PrintS(Attr(V, "Error"))>>,
+    \* a template that reaches for the engine's own objects: the macro of an imported library as a value (rendered again on the same engine)
+    modnode |-> <<Import(LS(<<97>>), "L"), PrintS(MCall("L", "m", <<>>)), Text(<<124>>), PrintS(Attr(Attr(Var("L"), "m"), "Release")), PrintS(Attr(Attr(Var("L"), "m"), "name")),
+                  PrintS(Cond(Test(Attr(Attr(Var("L"), "m"), "Release"), "defined", <<>>, FALSE), LI(1), LI(2))), PrintS(Attr(Attr(Var("_self"), "m"), "Release")), PrintS(Attr(V, "Release"))>>,
     attrdef |-> <<PrintS(Cond(Test(Attr(V, "a"), "defined", <<>>, FALSE), LI(1), LI(2)))>>, attrdef2 |-> <<PrintS(Cond(Test(Attr(Attr(V, "a"), "b"), "defined", <<>>, TRUE), LI(1), LI(2)))>>,
     itemdef |-> <<PrintS(Cond(Test(Item(V, LI(0)), "defined", <<>>, FALSE), LI(1), LI(2)))>>, itemdefs |-> <<PrintS(Cond(Test(Item(V, LS(<<97>>)), "defined", <<>>, FALSE), LI(1), LI(2)))>>,
     vdef |-> <<PrintS(Cond(Test(V, "defined", <<>>, FALSE), LI(1), LI(2)))>>,
@@ -264,7 +268,7 @@ CaseOf(c) ==
             \* (the second run: the engine in debug mode, which logs the values it meets)
             runs |-> {[label |-> "shape" \o (IF dbg THEN "/debug" ELSE ""), tp |-> ("main" :> Source(Skeletons[c.sk], LMin)) @@ ("t1" :> Source(<<PrintS(Var("a"))>>, LMin))
                                                @@ ("a" :> Source(Lib, LMin)) @@ ("12" :> Source(Lib, LMin)),
-                       xcalls |-> [id \in {} |-> 0], probe |-> TRUE, debug |-> dbg] : dbg \in BOOLEAN}, expect |-> AnyExpect]
+                       xcalls |-> [id \in {} |-> 0], probe |-> TRUE, debug |-> dbg, again |-> IF c.sk = "modnode" THEN 2 ELSE 0] : dbg \in BOOLEAN}, expect |-> AnyExpect]
       [] c.fam = "slice" ->
            [prop |-> "C05", key |-> ToJson(c), tags |-> {"fam:slice", "sh:" \o c.sh, "via:" \o c.via}, entry |-> "main",
             ctx |-> ("v" :> [t |-> "shape", kind |-> c.sh]),
